@@ -30,7 +30,7 @@ PARTS = {
     "thorough": [("bfs_triangle_9", "MC_Zigzag_tri9.cfg", None, None),
                  ("bfs_tetra2skel_8", "MC_Zigzag_tet8.cfg", None, None),
                  ("bfs_cells_6", "MC_Zigzag_cel6.cfg", None, None),
-                 ("sim_tetra_18", "MC_Zigzag_sim.cfg", 400, 19)],
+                 ("sim_tetra_18", "MC_Zigzag_sim.cfg", 300, 19)],
 }
 TRACES = {"quick": (1, 300), "thorough": (4, 300)}   # executions per column type, arrows per execution
 
